@@ -81,6 +81,10 @@ def snapshot(app: Any, ids: list[str] | None = None, with_tables: bool = True, h
     tr = app.trigger
     snap["valid_conditions"] = _safe(lambda: sorted(tr.get_valid_conditions().keys()))
     snap["conditions"] = _safe(lambda: sorted(c.condition_id for c in tr._get_all_conditions()))
+    cds = app.client_data_store
+    if not whitebox.is_sqlite(cds) and hasattr(cds, "_storage"):
+        # in-memory store: the externalised values this app can resolve (SQLite: covered by the table dump)
+        snap["client_data_keys"] = _safe(lambda: sorted(cds._storage.keys()))
     if with_tables:
         snap["tables"] = _safe(lambda: sqlite_tables(app))
     return snap
